@@ -732,3 +732,100 @@ func ruleREPORTPROP(w *World, r *Report) {
 	}
 	r.floor("REPORT-PROP", "calls of Decoder.Repair in parN.repair", n, 2)
 }
+
+// ---------------------------------------------------------------------------
+// ENTRY-SEQ: the operations declare success only through the decoder.
+
+const ruleENTRYSEQText = "the entry points declare success only through the decoder's own verdict: in parN.verify every success return is dominated by newDecoder, LoadFileData and LoadParityData and returns counts taken from decoder.ShardCounts()/FileCounts(); in parN.repair every return whose error may be nil is dominated by those calls and by (*Decoder).Repair, and its error is that call's error - no fast path may report success from a partial view of the damage"
+
+func ruleENTRYSEQ(w *World, r *Report, pkgs ...string) {
+	r.rule("ENTRY-SEQ", ruleENTRYSEQText)
+	for _, pkg := range pkgs {
+		for _, op := range []string{"verify", "repair"} {
+			fn := w.Fn(pkg + "." + op)
+			key := pkg + "." + op
+			if fn == nil {
+				r.unk("ENTRY-SEQ", key, "-", "function not found")
+				continue
+			}
+			need := []string{pkg + ".newDecoder", "(*" + pkg + ".Decoder).LoadFileData", "(*" + pkg + ".Decoder).LoadParityData"}
+			if op == "repair" {
+				need = append(need, "(*"+pkg+".Decoder).Repair")
+			}
+			calls := map[string]ssa.CallInstruction{}
+			for _, c := range callInstrs(fn) {
+				calls[staticCalleeShort(c.Common())] = c
+			}
+			nret := 0
+			for _, b := range fn.Blocks {
+				if len(b.Instrs) == 0 {
+					continue
+				}
+				ret, ok := b.Instrs[len(b.Instrs)-1].(*ssa.Return)
+				if !ok || len(ret.Results) != 2 {
+					continue
+				}
+				errv := ret.Results[1]
+				// returns that certainly carry an error are not success declarations
+				if !isNilConst(errv) {
+					if op == "verify" {
+						continue
+					}
+					// repair: `return result, err` with err the result of Decoder.Repair is the one allowed maybe-nil return
+					rc := calls["(*"+pkg+".Decoder).Repair"]
+					isRepairErr := false
+					if rc != nil {
+						if ex, ok := errv.(*ssa.Extract); ok && ex.Tuple == rc.Value() && ex.Index == 1 {
+							isRepairErr = true
+						}
+					}
+					if !isRepairErr {
+						// an error known non-nil on this path?
+						nonNil := false
+						for _, c := range cmpsAt(b) {
+							if c.Op == token.NEQ && c.Y != nil && ((c.X == errv && isNilConst(c.Y)) || (c.Y == errv && isNilConst(c.X))) {
+								nonNil = true
+							}
+						}
+						if nonNil || definitelyNonNilError(errv) {
+							continue
+						}
+					}
+				}
+				k := fmt.Sprintf("%s:success-return#%d", key, nret)
+				nret++
+				missing := ""
+				for _, n := range need {
+					c := calls[n]
+					if c == nil || !instrDominates(c, ret) {
+						missing = n
+					}
+				}
+				if missing != "" {
+					r.bad("ENTRY-SEQ", k, w.ipos(ret), fmt.Sprintf("%s can report success on a path that does not go through %s: the verdict is taken from a partial view of the set", key, missing))
+					continue
+				}
+				if op == "verify" {
+					// result built from decoder counts
+					want := "(*" + pkg + ".Decoder).ShardCounts"
+					if pkg == "par1" {
+						want = "(*" + pkg + ".Decoder).FileCounts"
+					}
+					found := false
+					backSlice(ret.Results[0], func(v ssa.Value) bool {
+						if cl, ok := v.(*ssa.Call); ok && staticCalleeShort(&cl.Call) == want {
+							found = true
+						}
+						return !found
+					})
+					if !found {
+						r.bad("ENTRY-SEQ", k, w.ipos(ret), key+" returns a result that is not built from "+want+"()")
+						continue
+					}
+				}
+				r.ok("ENTRY-SEQ", k, w.ipos(ret), "success declared only after "+strings.Join(need, ", "))
+			}
+			r.floor("ENTRY-SEQ", "success returns of "+key, nret, 1)
+		}
+	}
+}
